@@ -181,7 +181,7 @@ def order_at(c, orders, w):
     return True, hit[0].quantity, hit[0].created_dt, hit[0].asset
 
 
-@harness('PortfolioConstructionModel.__call__', props=['C09', 'C19', 'C18', 'C07', 'C08'], layer='L3', functions=PCM_FUNCS)
+@harness('PortfolioConstructionModel.__call__', props=['C09', 'C19', 'C18', 'C07', 'C08'], also=['C14'], layer='L3', functions=PCM_FUNCS)
 def pcm_call(c):
     """one rebalance: weights and orders for exactly held + universe(dt) + alpha keys (zero where alpha is silent); the
        recorded allocation row is that full weight vector; the sizer gets exactly it; orders = target - current, none of
@@ -222,12 +222,12 @@ def pcm_call(c):
     # --- recorded allocation
     rows = stats['target_allocations']
     ok = len(rows) == 1
-    c.ob('one-allocation-row-recorded', ok)
+    c.ob('one-allocation-row-recorded', ok, props=['C09', 'C19', 'C18', 'C07', 'C08', 'C14'])
     if ok:
         row = rows[0]
-        c.ob('allocation-row-dated-dt', EQ(VAL(row, 'Date'), dt))
-        c.ob('allocation-row-covers-exactly-held-universe-and-alpha-assets', IFF(HAS(row, w), inset), props=['C09', 'C19'])
-        c.ob('allocation-row-weight-is-alpha-weight-else-zero', IMPLIES(inset, EQ(VAL(row, w), weight)), props=['C09', 'C19'])
+        c.ob('allocation-row-dated-dt', EQ(VAL(row, 'Date'), dt), props=['C09', 'C19', 'C18', 'C07', 'C08', 'C14'])
+        c.ob('allocation-row-covers-exactly-held-universe-and-alpha-assets', IFF(HAS(row, w), inset), props=['C09', 'C19', 'C14'])
+        c.ob('allocation-row-weight-is-alpha-weight-else-zero', IMPLIES(inset, EQ(VAL(row, w), weight)), props=['C09', 'C19', 'C14'])
     # --- sizer argument
     ok = len(S.sizer_calls) == 1
     c.ob('sizer-called-exactly-once', ok)
